@@ -7,6 +7,7 @@ import (
 	"math/big"
 	"os"
 	"regexp"
+	"sort"
 	"strings"
 
 	"golang.org/x/tools/go/ssa"
@@ -27,6 +28,58 @@ func (g *Gen) calleeName(c *ssa.CallCommon) string {
 		return shortFuncName(f.Fn.(*ssa.Function))
 	}
 	return "dynamic " + g.typeName(c.Value.Type())
+}
+
+// siteOrdinal: the ordinal of a call instruction of the function under verification among the calls to the same
+// callee, counted in source order (position of the call; instructions without a position keep their SSA order after
+// the positioned ones). Instructions of other functions (inlined closure bodies) are not numbered here.
+func (g *Gen) siteOrdinal(in ssa.Instruction) (int, bool) {
+	if g.siteOrd == nil {
+		g.siteOrd = map[ssa.Instruction]int{}
+		type ent struct {
+			in       ssa.Instruction
+			pos      token.Pos
+			blk, idx int
+		}
+		by := map[string][]ent{}
+		for _, b := range g.fn.Blocks {
+			for i, ins := range b.Instrs {
+				cc, ok := ins.(ssa.CallInstruction)
+				if !ok {
+					continue
+				}
+				n := g.calleeName(cc.Common())
+				p := ins.Pos()
+				if p == token.NoPos {
+					p = token.Pos(1 << 40)
+				}
+				by[n] = append(by[n], ent{ins, p, b.Index, i})
+			}
+		}
+		for _, es := range by {
+			sort.SliceStable(es, func(a, b int) bool {
+				if es[a].pos != es[b].pos {
+					return es[a].pos < es[b].pos
+				}
+				if es[a].blk != es[b].blk {
+					return es[a].blk < es[b].blk
+				}
+				return es[a].idx < es[b].idx
+			})
+			for k, e := range es {
+				g.siteOrd[e.in] = k + 1
+			}
+		}
+	}
+	o, ok := g.siteOrd[in]
+	return o, ok
+}
+
+func (g *Gen) markSite(k string) {
+	if g.sitesSeen == nil {
+		g.sitesSeen = map[string]bool{}
+	}
+	g.sitesSeen[k] = true
 }
 
 func shortFuncName(f *ssa.Function) string {
@@ -71,6 +124,7 @@ func (g *Gen) call(in ssa.Instruction, c *ssa.CallCommon, rt types.Type) Val {
 		site := fmt.Sprintf("%s#%d", name, g.callCount[name])
 		for _, gh := range g.fc.Ghosts {
 			if siteMatches(site, gh.Site) {
+				g.markSite("ghost " + gh.Name + "@" + gh.Site)
 				if er, ok := gh.Expr.(*EResult); ok {
 					// `ghost x after f#n = result` names the value this very call returned
 					rv := v
@@ -85,6 +139,10 @@ func (g *Gen) call(in ssa.Instruction, c *ssa.CallCommon, rt types.Type) Val {
 					continue
 				}
 				g.pendingGhosts = append(g.pendingGhosts, gh)
+				if g.pendingGhostRes == nil {
+					g.pendingGhostRes = map[string]Val{}
+				}
+				g.pendingGhostRes[gh.Name] = v
 			}
 		}
 		for _, a := range g.fc.Asserts {
@@ -126,7 +184,12 @@ var _ = regexp.MustCompile
 
 func (g *Gen) callInner(in ssa.Instruction, c *ssa.CallCommon, rt types.Type) Val {
 	name := g.calleeName(c)
-	g.callCount[name]++
+	if ord, ok := g.siteOrdinal(in); ok {
+		// call sites are numbered per callee in SOURCE order (like return statements and loops)
+		g.callCount[name] = ord
+	} else {
+		g.callCount[name]++
+	}
 	var args []Val
 	if c.IsInvoke() {
 		args = append(args, g.val(c.Value))
@@ -148,6 +211,9 @@ func (g *Gen) callInner(in ssa.Instruction, c *ssa.CallCommon, rt types.Type) Va
 			// callee's own precondition; the callee's contract, not the callsite clause, describes the effect
 			site := fmt.Sprintf("%s#%d", name, g.callCount[name])
 			for k, cs := range g.fc.CallSites {
+				if siteMatches(site, k) {
+					g.markSite("callsite " + k)
+				}
 				if siteMatches(site, k) && len(cs.Requires) > 0 {
 					g.callSiteRequires(cs, site, c, pos)
 				}
@@ -168,6 +234,7 @@ func (g *Gen) callInner(in ssa.Instruction, c *ssa.CallCommon, rt types.Type) Va
 		site := fmt.Sprintf("%s#%d", name, g.callCount[name])
 		for k, cs := range g.fc.CallSites {
 			if siteMatches(site, k) {
+				g.markSite("callsite " + k)
 				return g.applyCallSite(cs, site, c, rt, pos)
 			}
 		}
